@@ -143,3 +143,36 @@ for sid,(prop,what,needs,ran,checks) in M4.items():
     except Exception: pass
     json.dump(meta, open(d+'/meta.json','w'), indent=1)
 print(len(M4))
+
+M5 = {
+ "C04d": ("C04", "_optimize_to_arithmetic_feedback: the first of two blocks that re-point a folded memory's reads was deleted as a duplicate; only it cleared the old source list, so reads placed before the write keep the deleted hold gate as first source", "a memory folded into arithmetic feedback whose output lands on the green wire (a same-typed computed addend in a multi-combinator loop) or a bundle containing the read declared before the write", "C04 quick exit 1 on first run (1)", ["C04"]),
+ "C07d": ("C07", "multi-row decider emitter reads the copy colour from `output_signal_wires` (a key nobody sets) instead of `output_value_wires`: the exported output has no `networks` entry", "an &&/|| chain folded into one multi-row decider used as the condition of `: v` with a Signal value", "C07 quick missed at first (the random draw of 40 programs contained no such decider); after making every run start with one program from each generator plus an emitter-path program -> exit 1 (2: plan completeness, output network selection)", ["C07"]),
+ "C09d": ("C09", "_trim_power_poles recognises grid poles by prototype instead of the is_power_pole flag: a user-placed pole of the requested type with no consumer in its supply area is trimmed", "--power-poles T and a place()d pole of prototype T with no non-pole entity within its supply radius", "C09 quick exit 1 on first run (12)", ["C09"]),
+ "C11d": ("C11", "_resolve_constant_symbol consults the caller's names (signal_refs) before the inlined function's parameters (same change as C15d / C17d, found independently)", "a compile-time int or loop iterator of the caller named like an int parameter that the body uses in a folded sub-expression", "C11 quick missed at first (C15 exit 1 (49)); after adding a caller int / iterator named like the parameter to function_argument -> C11 exit 1 (5)", ["C11", "C15"]),
+ "C13d": ("C13", "CSE key normalises compiler-allocated output types (`__vN`) to one placeholder: identical untyped computations on item/fluid operands are merged although their results must be distinct signals", "optimiser on; two identical comparisons of item/fluid signals whose untyped results are both used as distinct signals (bundle members, entity conditions, latch set)", "C13 quick exit 1 on first run (19)", ["C13"]),
+ "C14d": ("C14", "infer_binary_op_type marks the operand's own type object as a comparison result (missing copy): a plain signal that was compared earlier is accepted as the condition of `x : v`", "a named signal on a virtual / implicit channel, compared somewhere earlier, then used bare as an output-specifier condition", "C14 quick exit 1 on first run (2)", ["C14"]),
+ "C15d": ("C15", "_resolve_constant_symbol consults the caller's names before the inlined function's parameters", "an int parameter named like a caller int / enclosing loop iterator of another value, used in a folded sub-expression of the body", "C15 quick exit 1 on first run (49)", ["C15"]),
+ "C17d": ("C17", "the same lookup-order change as C15d, written as a de-duplicating loop", "a library call (set_bit, lerp, abs ...) next to a user int / iterator named like a library parameter", "C17 quick exit 1 on first run (5)", ["C17", "C15"]),
+ "C18d": ("C18", "complete_power_grid joins pole groups when EITHER pole reaches (max of the two wire reaches) while placement and emitter require both", "--power-poles small|substation|big, at least one medium wire relay, and a relay whose nearest grid pole lies between the two reaches", "C18 quick exit 1 on first run (6: poles form 2 electric networks)", ["C18"]),
+ "C19d": ("C19", "_route_edge_directly records a real edge's colour with setdefault: an earlier MST path-segment entry for the same (source, sink, name) key wins", "a typed constant read by q = a + k and p = a * q (one name from two producers, the first a constant combinator with fan-out) and a layout in which q-p is a segment of a's spanning tree", "C19 quick missed at first (C01 exit 1 (8)); after adding the constant-first-producer variant to same_name_two_producers_fanout -> C19 exit 1 (4 of 9 programs differ between schedules)", ["C19", "C01"]),
+}
+for sid,(prop,what,needs,ran,checks) in M5.items():
+    d='/verif/seeded/%s'%sid
+    os.makedirs(d, exist_ok=True)
+    conf={}
+    try: conf=json.load(open(d+'/confirm.json'))
+    except Exception: pass
+    base=None
+    try: base=subprocess.check_output(["git","-C","/tmp/wt_%s"%sid,"rev-parse","--short","HEAD"],text=True,stderr=subprocess.DEVNULL).strip()
+    except Exception: pass
+    old={}
+    try: old=json.load(open(d+'/meta.json'))
+    except Exception: pass
+    meta={"id":sid,"property":prop,"change":what,"needs_to_manifest":needs,"base_commit":base or old.get("base_commit"),
+          "produced_by":"fresh sub-agent given only the property text (asked for an interaction of two features or stages, away from the obvious spot) and a scratch git worktree under /tmp",
+          "confirmed_by_me":{"demo_exit_with_change":conf.get("demo_with_change",{}).get("exit"),"demo_exit_without_change":conf.get("demo_without_change",{}).get("exit"),
+                             "repository_suite_with_change":(conf.get("suite_xdist",{}).get("last_line") or [None])[0], "suite_failures_confirmed_serially":conf.get("suite_failures_confirmed_serially")},
+          "checks_run":"FVERIF_REPO=<worktree with the change> ./check <id> --tier quick --no-evidence (same as applying the patch to /repo; /repo was busy with the thorough sweep)",
+          "result":ran,"caught_by":checks}
+    json.dump(meta, open(d+'/meta.json','w'), indent=1)
+print(len(M5))
